@@ -30,7 +30,15 @@ V3 = LANM + "_LanProtocolV3"
 LANC = LANM + "LAN"
 DEVB = "msmart.base_device.Device"
 
+DISCM = "msmart.discover."
+
 PROPS = {
+    "C17": {"targets": [DISCM + "Discover._get_device_version", DISCM + "Discover._get_device_info#wellformed", DISCM + "Discover._get_device_class",
+                        DISCM + "Discover._get_device", DISCM + "_DiscoverProtocol._send_discovery", "C17.discovery_probe_is_pinned"],
+            "level": "proof"},
+    "C18": {"targets": [DISCM + "_DiscoverProtocol.datagram_received", DISCM + "Discover._get_device", DISCM + "Discover._get_device_info",
+                        DISCM + "Discover._get_device_version"],
+            "level": "proof"},
     "C02": {"targets": [LANM + "_Packet._timestamp", LANM + "_Packet.encode", LANM + "_Packet.decode", LANM + "_Packet.decode#interop"],
             "level": "proof"},
     "C03": {"targets": [LANM + "_Packet.decode", LANM + "_Packet.decode#truncated", LANM + "_Packet.decode#interop"],
